@@ -266,3 +266,13 @@ Theorem C09_filter_bound_instances_independent : forall (O : Type) (upred : O ->
   filt_get upred o1 = upred o1 /\ filt_get upred o2 = upred o2.
 Proof. exact filter_get_instances_lemma. Qed.
 Print Assumptions C09_filter_bound_instances_independent.
+
+(* the filter called with a STORED exception (it already carries a traceback) that is not the one being handled — with
+   no active exception or inside an unrelated except block: rejected -> the same object, its own traceback kept *)
+Theorem C09_filter_call_stored_exception : forall p l s st c m,
+  pv p (Some c) = PFalsy ->
+  exists st', exec (FilterCall p (AStored c m) l) s st = (s, st', Raised (next st)) /\ stable st st' /\
+              ecls (heap st' (next st)) = c /\ eorg (heap st' (next st)) = OSite m /\
+              tb_of st' (next st) = [FProg l; FHelper FnFiltCall KVal; FPre].
+Proof. exact filter_call_stored_lemma. Qed.
+Print Assumptions C09_filter_call_stored_exception.
